@@ -150,6 +150,71 @@ def record(mods, rep, name, exprs, cases, viol, derived, limit):
     return nprop
 
 
+def histories(mods, rep, name, exprs, viol, rnd, nsteps=(4, 2)):
+    """The mutator objects of a strategy live for a whole reduction and the
+    nodes an accepted step does not touch keep their identity.  Histories of
+    one and two accepted steps with PERSISTENT mutator objects, as a
+    reduction runs them: every proposal on the then-current input must refer
+    to nodes of that input only and must be applicable."""
+    nodes_mod = mods['nodes']
+    muts = P.all_mutators(mods)
+    n = 0
+
+    def proposals(ex):
+        return [p for p in P.enumerate_proposals(mods, ex, muts)
+                if not p['error'] and isinstance(
+                    p['simp'], mods['mutator_utils'].Simplification)]
+
+    def check(ex, hist):
+        nonlocal n
+        ids = all_ids(nodes_mod, ex)
+        props = proposals(ex)
+        for p in props:
+            n += 1
+            rep.count()
+            foreign = [k for k in p['simp'].substs
+                       if isinstance(k, int) and k not in ids]
+            where = f'{p["mut"]}:seed={name}:history={"/".join(hist)}'
+            ctx = {'seed': name, 'mutator': p['mut'], 'history': hist,
+                   'input': mods['nodeio'].write_smtlib_to_str(ex),
+                   'node': str(p['node'])[:200]}
+            if foreign:
+                viol.append(('foreign-identity-key-after-history:' + where,
+                             f'after the accepted steps {hist} (same mutator '
+                             f'objects, untouched nodes keep their identity) '
+                             f'{p["mut"]} proposes a simplification for '
+                             f'{str(p["node"])[:80]!r} that refers to node '
+                             f'ids {foreign}, which are not in the current '
+                             f'input', ctx))
+        return props
+
+    props0 = check(exprs, [])
+    changing = []
+    base = P.toks_of(exprs)
+    for p in props0:
+        res, err = P.apply(mods, exprs, p['simp'])
+        if not err and res is not None and P.toks_of(res) != base:
+            changing.append((p, res))
+    rnd.shuffle(changing)
+    for p, res in changing[:nsteps[0]]:
+        ex1 = nodes_mod.reduplicate(res)
+        h1 = [f'{p["mut"]}@{p["idx"]}']
+        props1 = check(ex1, h1)
+        ch1 = []
+        b1 = P.toks_of(ex1)
+        for q in props1:
+            r2, err = P.apply(mods, ex1, q['simp'])
+            if not err and r2 is not None and P.toks_of(r2) != b1:
+                ch1.append((q, r2))
+        rnd.shuffle(ch1)
+        for q, r2 in ch1[:nsteps[1]]:
+            check(nodes_mod.reduplicate(r2), h1 + [f'{q["mut"]}@{q["idx"]}'])
+        # the first input again (a rejected step): the objects have seen a
+        # later input in between
+        check(exprs, h1 + ['back'])
+    return n
+
+
 def main():
     a = common.std_args()
     ddsmt_env.load()
@@ -185,6 +250,11 @@ def main():
         derived = []
         total += record(mods, rep, name, exprs, cases, viol, derived,
                         lim['max_cases'])
+        if not a.replay:
+            nh = histories(mods, rep, name, exprs, viol, rnd,
+                           (4, 2) if a.tier == 'quick' else (12, 4))
+            rep.cov['proposals_after_histories'] = rep.cov.get(
+                'proposals_after_histories', 0) + nh
         rnd.shuffle(derived)
         for k, dtext in enumerate(derived[:lim['derived_per_seed']]):
             try:
